@@ -535,10 +535,10 @@ fn run_setop_mut<'x, 'y: 'x, P: SimPrefix, T: WVal, Rr: WVal>(
     }
 }
 
-pub fn run_session<'a, P: SimPrefix, T: WVal>(ctx: &mut Ctx, mut w: Option<&mut World<P>>, self_idx: usize, root: TrieViewMut<'a, P, T>, t0: &Truth, acts: &[MAct]) -> R<(Exp, bool, Vec<usize>)> {
+pub fn run_session<'a, P: SimPrefix, T: WVal>(ctx: &mut Ctx, mut w: Option<&mut World<P>>, self_idx: usize, root: TrieViewMut<'a, P, T>, root_region: Key, t0: &Truth, acts: &[MAct]) -> R<(Exp, bool, Vec<usize>)> {
     let mut s: Sess<'a, P, T> = Sess {
         pool: vec![root],
-        dom: vec![Key::ZERO],
+        dom: vec![root_region],
         iters: vec![],
         held: vec![],
         addrs: BTreeSet::new(),
@@ -900,7 +900,7 @@ pub fn mut_session<P: SimPrefix>(w: &mut World<P>, ctx: &mut Ctx, target: Opnd, 
             let t0 = w.truths[i].clone();
             // take the container out of the world so that other containers stay reachable
             let mut real: PrefixMap<P, Val> = std::mem::take(&mut w.maps[i].real);
-            let r = run_session(ctx, Some(w), i, real.view_mut(), &t0, acts);
+            let r = run_session(ctx, Some(w), i, real.view_mut(), Key::ZERO, &t0, acts);
             w.maps[i].real = real;
             let (exp, changed, mut touched) = r?;
             post_session(ctx, &t0, &truth_of(&w.maps[i].real.verif_snapshot()), &exp, "map")?;
@@ -915,7 +915,7 @@ pub fn mut_session<P: SimPrefix>(w: &mut World<P>, ctx: &mut Ctx, target: Opnd, 
             let i = i as usize;
             let t0 = w.truths[nm + i].clone();
             let mut real: PrefixSet<P> = std::mem::take(&mut w.sets[i].real);
-            let r = run_session(ctx, Some(w), nm + i, real.view_mut(), &t0, acts);
+            let r = run_session(ctx, Some(w), nm + i, real.view_mut(), Key::ZERO, &t0, acts);
             w.sets[i].real = real;
             let (exp, changed, mut touched) = r?;
             post_session(ctx, &t0, &truth_of(&w.sets[i].real.verif_snapshot()), &exp, "set")?;
